@@ -18,6 +18,8 @@ PROPS = ["Bo", "Bg", "Bw", "Rs", "Rv", "mu_o", "mu_g", "mu_w"]
 def grid(kind, seed=0):
     if kind == "uniform":
         return np.arange(100.0, 6000.0 + 1, 10.0)
+    if kind == "integer":  # an integer-typed pressure column (np.arange(100, 6001, 20))
+        return np.arange(100, 6001, 20, dtype=np.int64)
     if kind == "geometric":
         return 100.0 * 1.012 ** np.arange(344)
     g = LCG(seed + 5)
@@ -55,8 +57,9 @@ def family(name):
 def table(fam, p, container="dict"):
     f = family(fam)
     d = {"pressure": p.copy(), "pseudopressure": np.linspace(0.0, 1.0, len(p))}
+    pf = np.asarray(p, dtype=float)
     for k in PROPS + ["So"]:
-        d[k] = np.asarray(f[k](p), dtype=float)
+        d[k] = np.asarray(f[k](pf), dtype=float)
     if container == "frame":
         import pandas as pd  # noqa: PLC0415
 
